@@ -50,6 +50,7 @@ theorem except_error_bind {ε α β} (e : ε) (f : α → Except ε β) : (Excep
 macro "lin_simp" "[" ls:Lean.Parser.Tactic.simpLemma,* "]" : tactic =>
   `(tactic| simp only [$ls,*, npDot_same, shapeOf_eq, rowMat_mul, rowMat_sub_vec, rowMat_add_vec, rowMat_mul_vec,
       rowMat_sub_rowMat, flat1_rowMat, except_ok_bind, except_error_bind, beq_self_eq_true, Bool.not_true,
+      bne_self_eq_false,
       Bool.false_eq_true, if_false, if_true, gt_iff_lt, lt_irrefl, decide_false])
 
 theorem genLinProject_eq (U : Mat k d) (x : Fin d → ℚ) : genLinProject U x = linProject U x := by
